@@ -61,7 +61,7 @@ func runC12(r *harness.Run) {
 		"state = (sp, how sp was reached, fresh/recycled segments), frames carry unique tags so contents are verified along every path; segment pool pre-poisoned) plus every un-deduplicated history of bounded length from every fill level, and of the registry " +
 		"((initial,grow,max) in {8,16}x{1,3,32}x{0,16,40}; ops Push, Pop, Set, SetNumber, SetTop, FillNil, CopyRange, Insert with indices straddling top, capacity and the limit; state = (top, len(array), unspecified-slot bitmap)) against slice models; " +
 		"part 2: on real LStates, recursion depth straddling each call-stack limit (CallStackSize 1..18,256 x MinimizeStackMemory) and argument/unpack/{...}/result counts straddling each registry limit (128 fixed: every n of the window; 128->4096 step 32 and 128->600 step 1: threshold located by subdivision, then every n around it, around limit/k for k=1..5 and around the initial capacity; 128->4096 step 1 for two families; more in the thorough tier), " +
-		"17 program families (unpack/select/{...}/varargs/tail call/Go results/table.concat/coroutine transfer/deep locals/literal argument lists) each inside pcall, xpcall, coroutine, metamethod, Go PCall: " +
+		"16 program families (unpack/select/{...}/varargs/tail call/Go results/coroutine transfer/deep locals/literal argument lists) each inside pcall, xpcall, coroutine, metamethod, Go PCall: " +
 		"clean catchable error above the limit, correct result below, state snapshot restored, closures of the overflowing frames intact, follow-up chunk as on a fresh state; " +
 		"part 3: generated corpus + repository Lua scripts under the product of Options (CallStackSize 64/65/256, MinimizeStackMemory, RegistrySize 128/5120, RegistryMaxSize 0/8192, RegistryGrowStep 1/32, context attached or not): identical emit traces; " +
 		"non-trivial = distinct (structure, configuration, state) / (configuration, family, context, parameter) / (program, configuration) cases actually executed"
